@@ -3,3 +3,4 @@ import Driver.Span
 import Driver.Lines
 import Driver.Ast
 import Driver.Html
+import Driver.Tree
